@@ -239,3 +239,7 @@ mod tests {
         assert_eq!(safe_join(Path::new("foo"), "bar/../baz"), None);
     }
 }
+
+#[cfg(kani)]
+#[path = "/verif/kani/loader.rs"]
+mod verif_kani;
